@@ -77,11 +77,19 @@ def compare(text, start):
     return a[0], None
 
 
+def _ctx(history, viols):
+    """The parsers are long-lived objects (the library keeps one at module level), so an
+    outcome may depend on what was parsed before: the first violation of a chunk carries
+    the chunk's whole history, and its replay parses that history first."""
+    return {"history": list(history)} if not viols else {}
+
+
 def _string_chunk(args):
     firsts, length, alphabet = args
     n = 0
     acc = 0
     viols = []
+    history = []
     for f in firsts:
         for rest in itertools.product(alphabet, repeat=length - 1):
             text = f + "".join(rest)
@@ -90,7 +98,8 @@ def _string_chunk(args):
                 oc, v = compare(text, start)
                 acc += oc == "accept"
                 if v:
-                    viols.append((v[0], f"{start}:{text!r}", v[1], {"text": text, "start": start}))
+                    viols.append((v[0], f"{start}:{text!r}", v[1], {"text": text, "start": start, **_ctx(history, viols)}))
+                history.append([text, start])
     return n, acc, viols
 
 
@@ -105,6 +114,7 @@ def _seq_chunk(args):
     n = 0
     acc = 0
     viols = []
+    history = []
     for seq, status in seqs:
         for variant in range(4):
             text = render(seq, variant)
@@ -112,7 +122,8 @@ def _seq_chunk(args):
             oc, v = compare(text, start)
             acc += oc == "accept"
             if v:
-                viols.append((v[0], f"{start}:{text!r}", v[1], {"text": text, "start": start}))
+                viols.append((v[0], f"{start}:{text!r}", v[1], {"text": text, "start": start, **_ctx(history, viols)}))
+            history.append([text, start])
     return n, acc, viols
 
 
@@ -221,5 +232,8 @@ def replay(obj, kind=None):
         rules_ok = sorted(map(rule_sig, P["shipped"].rules), key=repr) == sorted(map(rule_sig, P["fresh"].rules), key=repr)
         bad = bool(mism) or la != lb or oa != ob or not rules_ok
         return bad, f"table mismatches {mism[:3]}; lexer equal {la == lb}; options equal {oa == ob}; rules equal {rules_ok}"
+    for t, st in obj.get("history") or []:
+        compare(t, st)
     oc, v = compare(obj["text"], obj["start"])
-    return v is not None, f"{obj['text']!r} as {obj['start']}: {oc} {v}"
+    after = f" (after the {len(obj['history'])} parses that preceded it in its batch)" if obj.get("history") else ""
+    return v is not None, f"{obj['text']!r} as {obj['start']}{after}: {oc} {v}"
